@@ -171,6 +171,19 @@ Proof.
   - repeat constructor; unfold before; cbn; lia.
 Qed.
 
+(* non-vacuity of the routes: at the top of the address space every route (spelled out, from_range without a
+   file, with a file at offset 0 / 65536) creates the 4096-byte region ending at 2^64 - 2 and refuses the one whose
+   end is 2^64; from_ranges_with_files builds the two-region map, and no map when the last range ends at 2^64 *)
+Example C10_routes_nonvacuous :
+  let B := W64 - 4097 in
+  run_C10 {| c_mode := Debug; c_ops :=
+    [ONew B 4096; ONewVia 0 B 4096; ONewVia 1 B 4096; ONewVia 2 B 4096;
+     ONew (B + 1) 4096; ONewVia 0 (B + 1) 4096; ONewVia 1 (B + 1) 4096; ONewVia 2 (B + 2) 4096;
+     OFromRangesF [(4096, 4096, 1); (B, 4096, 2)]; OFromRangesF [(4096, 4096, 0); (B + 1, 4096, 1)]] |} =
+  [mkobs 0 []; mkobs 0 []; mkobs 0 []; mkobs 0 []; mkobs 1 []; mkobs 1 []; mkobs 1 []; mkobs 1 [];
+   mkobs 0 [mkreg 8 4096 4096; mkreg 9 B 4096]; mkobs 1 []].
+Proof. vm_compute. reflexivity. Qed.
+
 Print Assumptions C10_model_ok.
 Print Assumptions C10_history_valid.
 Print Assumptions C10_region_new_refuses.
